@@ -37,6 +37,7 @@ type Config struct {
 	Bounds       map[string]int
 	StrParams    map[string]string
 	BitLenExtra  []int // additional exact anchors for the big.Int BitLen model
+	UF           map[string]bool // functions replaced by uninterpreted pure functions of their arguments (stub by contract)
 	LazyFeas     bool  // do not ask the solver at forks: both sides are explored, feasibility is decided at assertions and at the end of a path
 	Deadline     time.Time
 	Merge        map[string]bool
@@ -45,7 +46,7 @@ type Config struct {
 }
 
 func defaultConfig() *Config {
-	return &Config{Unwind: 12, ListBound: 2, ByteBound: 8, StrConvMax: 8, MaxDepth: 80, MaxPaths: 20000, TimeoutMs: 20000, Solver: "z3-new", Bounds: map[string]int{}, Merge: map[string]bool{}, StrParams: map[string]string{}}
+	return &Config{Unwind: 12, ListBound: 2, ByteBound: 8, StrConvMax: 8, MaxDepth: 80, MaxPaths: 20000, TimeoutMs: 20000, Solver: "z3-new", Bounds: map[string]int{}, Merge: map[string]bool{}, StrParams: map[string]string{}, UF: map[string]bool{}}
 }
 
 type symInfo struct {
@@ -537,7 +538,7 @@ func (e *Exec) store(p *PtrV, nv Value, site string) {
 	if e.mergeDepth > 0 && p.O.Born <= e.mergeEpoch {
 		panic(mergeAbort{"store to a pre-existing object"})
 	}
-	if e.monitorOn && p.O.Born <= e.monitorEpoch {
+	if e.monitorOn && p.O.Born <= e.monitorEpoch && !isGhostTag(p.O.Tag) {
 		fn := ""
 		if e.curFn != nil {
 			fn = e.curFn.String()
@@ -696,6 +697,10 @@ func (e *Exec) call(fn *ssa.Function, args []Value, bind []Value) Value {
 			return nil
 		}
 		e.inited[fn.Pkg] = true
+	}
+	if e.initMode == 0 && e.cfg.UF[name] {
+		e.stub("uf:" + name)
+		return e.ufCall(name, args, fn.Signature.Results())
 	}
 	if e.initMode == 0 && e.cfg.Merge[name] && len(fn.Blocks) > 0 {
 		if v, ok := e.mergeCall(fn, args, bind); ok {
@@ -1231,4 +1236,11 @@ func (r *Result) Summary() string {
 		fmt.Fprintf(&sb, "   INCONCLUSIVE %s [%s]\n", f.Msg, f.Result)
 	}
 	return sb.String()
+}
+
+// isGhostTag: package variables of the harness itself (names starting with zz)
+// are ghost state, not part of the program under analysis.
+func isGhostTag(tag string) bool {
+	i := strings.LastIndex(tag, ".")
+	return strings.HasPrefix(tag, "global:") && i >= 0 && strings.HasPrefix(tag[i+1:], "zz")
 }
